@@ -131,6 +131,7 @@ class ProcessDesc:
 
 class PacketVar(MemoryDesc):
     base_register = 9
+    atomic = False  # the kernel allows no atomic operations on packets
 
     def fmt(self):
         if isinstance(self.size, int):
